@@ -1266,6 +1266,15 @@ class NF:
                 h = fa["holes"][p[1]]
                 a = H.strip(h["arg"])
                 v = self.nf(a, env)
+                if v[0] == "lit" and isinstance(v[1], str) and h["trait"] == "debug" and not h.get("spec") and "str" in (a.get("ty") or "") \
+                        and all(32 <= ord(c_) < 127 for c_ in v[1]):
+                    # Debug of a (plain ASCII) string literal is the literal in quotes, `"` and `\` escaped: part of the template text
+                    quoted = '"' + v[1].replace("\\", "\\\\").replace('"', '\\"') + '"'
+                    if parts and parts[-1][0] == "lit":
+                        parts[-1] = ("lit", parts[-1][1] + quoted)
+                    else:
+                        parts.append(("lit", quoted))
+                    continue
                 if v[0] == "lit" and isinstance(v[1], str) and h["trait"] == "display" and not h.get("spec") and "str" in (a.get("ty") or ""):
                     # Display of a string literal is the literal: part of the template text
                     if parts and parts[-1][0] == "lit":
